@@ -585,7 +585,8 @@ func (hp *HTTPProxy) denyLocalhost() martian.RequestModifier {
 
 func (hp *HTTPProxy) denyDomains(r Matcher) martian.RequestModifier {
 	return martian.RequestModifierFunc(func(req *http.Request) error {
-		if r.Match(req.URL.Hostname()) {
+		// Domain names are case-insensitive, the rules are written in lower case.
+		if r.Match(strings.ToLower(req.URL.Hostname())) {
 			return ErrProxyDenied
 		}
 		return nil
